@@ -329,11 +329,19 @@ func (e *Exec) global(g *ssa.Global) *Obj {
 	if o, ok := e.globals[g]; ok {
 		return o
 	}
+	if g.Pkg != nil && !e.initAllowed(g.Pkg) && !zeroSafeGlobals[g.String()] {
+		// the initializer of this package has not been executed: reading the variable would silently
+		// yield a zero value (an empty table, a nil error, ...). Loud, never a default.
+		e.unsupported("global " + g.String() + " of a package whose initializer is not executed (add the package to init_pkgs or model the caller)")
+	}
 	o := e.newObj(e.zero(g.Type().(*types.Pointer).Elem()), g.Type().(*types.Pointer).Elem())
 	o.tag = "global:" + g.String()
 	e.globals[g] = o
 	return o
 }
+
+// globals of non-initialised packages whose zero value is their initial value
+var zeroSafeGlobals = map[string]bool{"os.Stdout": true, "os.Stderr": true, "os.Stdin": true}
 
 func (e *Exec) initAllowed(pkg *ssa.Package) bool {
 	path := pkg.Pkg.Path()
